@@ -8,7 +8,10 @@ ENGINES = [
 NOTES = ("Model-based verification with explicit TLA+ specifications (spec/). Per subsystem: contract spec + "
          "implementation-shaped spec, TLC checks Impl => Contract on bounded models; conformance in both directions "
          "(TLC-generated behaviours replayed into the code; recorded executions of the code judged by TLC). "
-         "VIOLATION only when TLC rejects a concrete execution of the real code against the contract. See DESIGN.md.")
+         "VIOLATION only when TLC rejects a concrete execution of the real code against the contract. Every TLC batch carries "
+         "canary traces that must be rejected; model runs carry vacuity guards (witness predicates TLC must reach, actions never "
+         "taken) and sensitivity guards (the pinned-tree variant of the implementation-shaped spec must violate the invariant); a "
+         "failed guard is exit 2, never a pass. See DESIGN.md.")
 
 NOT_APPLICABLE = {}
 
